@@ -67,3 +67,13 @@ func (c *FnCtx) bindLocal(st *State, v *types.Var, val Term, pos token.Pos) {
 	}
 	st.vars[v] = val
 }
+
+// implementsTerm: whether the dynamic type of an interface value implements an interface type is a
+// fixed (uninterpreted) function of the dynamic type, so repeated assertions on one value agree.
+func (c *FnCtx) implementsTerm(v Term, iface types.Type) string {
+	d := c.e.d
+	d.declFun("dyntype", "V", "Int")
+	fn := "impl." + typeShortName(iface)
+	d.declFun(fn, "Int", "Bool")
+	return sApp(fn, sApp("dyntype", v.S))
+}
